@@ -15,6 +15,7 @@ from sqllineage.core.parser.sqlfluff.utils import (
     list_child_segments,
 )
 from sqllineage.utils.entities import AnalyzerContext
+from sqllineage.utils.helpers import escape_identifier_name
 
 
 class MergeExtractor(BaseExtractor):
@@ -30,6 +31,10 @@ class MergeExtractor(BaseExtractor):
         context: AnalyzerContext,
     ) -> StatementLineageHolder:
         holder = StatementLineageHolder()
+        if context.cte is not None:
+            # WITH ... MERGE: the source can be a CTE, or a subquery that refers to one
+            for cte in context.cte:
+                holder.add_cte(cte)
         src_flag = tgt_flag = False
         direct_source: Optional[Union[Table, SubQuery]] = None
         segments = list_child_segments(statement)
@@ -105,8 +110,14 @@ class MergeExtractor(BaseExtractor):
                 tgt_flag = False
             if src_flag:
                 if table := self.find_table(segment):
-                    holder.add_read(table)
-                    direct_source = table
+                    cte_dict = {s.alias: s for s in holder.cte}
+                    if "." not in segment.raw and (
+                        cte := cte_dict.get(escape_identifier_name(segment.raw))
+                    ):
+                        direct_source = cte
+                    else:
+                        direct_source = table
+                    holder.add_read(direct_source)
                 elif segment.type == "bracketed":
                     next_segment = segments[i + 1]
                     direct_source = SqlFluffSubQuery.of(
